@@ -143,6 +143,21 @@ def stripWord (w : String) : List Tok → Option (List Tok)
   | t :: ts => if isW w t then some ts else none
   | [] => none
 
+/-- drop a leading comma -/
+def stripComma : List Tok → Option (List Tok)
+  | .sym .comma :: ts => some ts
+  | _ => none
+
+/-- `['DISTINCT']` -/
+def stripDistinct (ts : List Tok) : Bool × List Tok :=
+  match stripWord "distinct" ts with
+  | some r => (true, r)
+  | none => (false, ts)
+
+def stripStar : List Tok → Option (List Tok)
+  | .sym .star :: ts => some ts
+  | _ => none
+
 def stripWords2 (w1 w2 : String) (ts : List Tok) : Option (List Tok) :=
   match stripWord w1 ts with
   | some r => stripWord w2 r
@@ -494,11 +509,13 @@ def parseTargets : Nat → List Tok → P (List Target)
     | some (e, rest) =>
       match parseAlias rest with
       | none => none
-      | some (alias, .sym .comma :: rest') =>
-        (match parseTargets f rest' with
-         | none => none
-         | some (more, rest'') => some (.mk e alias "" :: more, rest''))
-      | some (alias, rest') => some ([.mk e alias ""], rest')
+      | some (alias, rest1) =>
+        match stripComma rest1 with
+        | some rest' =>
+          (match parseTargets f rest' with
+           | none => none
+           | some (more, rest'') => some (.mk e alias "" :: more, rest''))
+        | none => some ([.mk e alias ""], rest1)
 
 /-- `(integer | expression)` -/
 def parseKey : Nat → List Tok → P KeyRef
@@ -518,11 +535,13 @@ def parseKeys : Nat → List Tok → P (List KeyRef)
   | f + 1, ts =>
     match parseKey f ts with
     | none => none
-    | some (k, .sym .comma :: rest) =>
-      (match parseKeys f rest with
-       | none => none
-       | some (ks, rest') => some (k :: ks, rest'))
-    | some (k, rest) => some ([k], rest)
+    | some (k, rest) =>
+      match stripComma rest with
+      | some rest' =>
+        (match parseKeys f rest' with
+         | none => none
+         | some (ks, rest'') => some (k :: ks, rest''))
+      | none => some ([k], rest)
 
 /-- ORDER BY keys -/
 def parseOrders : Nat → List Tok → P (List (KeyRef × Bool))
@@ -532,11 +551,13 @@ def parseOrders : Nat → List Tok → P (List (KeyRef × Bool))
     | none => none
     | some (k, rest) =>
       match parseOrdering rest with
-      | (desc, .sym .comma :: rest2) =>
-        (match parseOrders f rest2 with
-         | none => none
-         | some (ks, rest3) => some ((k, desc) :: ks, rest3))
-      | (desc, rest1) => some ([(k, desc)], rest1)
+      | (desc, rest1) =>
+        match stripComma rest1 with
+        | some rest2 =>
+          (match parseOrders f rest2 with
+           | none => none
+           | some (ks, rest3) => some ((k, desc) :: ks, rest3))
+        | none => some ([(k, desc)], rest1)
 
 /-- the `from` rule (FROM expression with OPEN / CLOSE / CLEAR) -/
 def parseFromBody : Nat → List Tok → P FromC
@@ -579,9 +600,9 @@ def parseFromClause : Nat → List Tok → P FromC
 def parseTargetList : Nat → List Tok → P (Option (List Target))
   | 0, _ => none
   | f + 1, ts =>
-    match ts with
-    | .sym .star :: r => some (none, r)
-    | r => (match parseTargets f r with | none => none | some (tl, r') => some (some tl, r'))
+    match stripStar ts with
+    | some r => some (none, r)
+    | none => (match parseTargets f ts with | none => none | some (tl, r') => some (some tl, r'))
 
 /-- `['WHERE' expression]` -/
 def parseWhere : Nat → List Tok → P (Option Expr)
@@ -620,7 +641,7 @@ def parseSelect : Nat → List Tok → P Select
     match stripWord "select" ts with
     | none => none
     | some ts0 =>
-    match (match stripWord "distinct" ts0 with | some r => (true, r) | none => (false, ts0)) with
+    match stripDistinct ts0 with
     | (distinct, ts1) =>
     match parseTargetList f ts1 with
     | none => none
